@@ -293,7 +293,8 @@ Inductive wop :=
 | WEnv (l : list ins)
 | WSboms (l : list (nat * bytes))
 | WExecd (progs : list (bytes * option (N * bytes)))
-| WFile (rel : path) (data : bytes).
+| WFile (rel : path) (data : bytes)
+| WLink (rel : path) (target : bytes).      (* the buildpack puts a symlink into the layer *)
 
 Section Writers.
   Variable sbom_suffixes : list bytes.
@@ -303,6 +304,9 @@ Section Writers.
   Definition file_fs (rel : path) (data : bytes) : M unit :=
     create_dir_all (S (List.length rel)) (drop_last rel) ;;; write_file rel (Raw data).
 
+  Definition link_fs (rel : path) (target : bytes) : M unit :=
+    create_dir_all (S (List.length rel)) (drop_last rel) ;;; symlink target rel.
+
   Definition do_write (n : bytes) (w : wop) (st : store) : store * result herr unit :=
     match w with
     | WMeta x => replace_layer_metadata n x st
@@ -310,6 +314,7 @@ Section Writers.
     | WSboms l => replace_layer_sboms sbom_suffixes n l st
     | WExecd p => replace_layer_exec_d n p st
     | WFile rel data => on_dir n (file_fs rel data) EWriteIo (fun _ => EWriteIo) st
+    | WLink rel t => on_dir n (link_fs rel t) EWriteIo (fun _ => EWriteIo) st
     end.
 End Writers.
 
